@@ -172,7 +172,7 @@ def run_check(prop, tier, module, level, explanation, checker_cmd):
             rp = os.path.join(evid_dir, "replay", "%s-%d.json" % (prop, i))
             with open(rp, "w") as fh:
                 json.dump(o.as_json(), fh, indent=1)
-            print("  violated: [%s] %s  %s:%s  %s" % (o.rule, o.key, o.file, o.line, o.detail))
+            print("  violated: [%s] %s  %s:%s  %s" % (o.rule, o.key, o.file, o.line, o.detail[:600]))
             print("VIOLATION property=%s replay=%s" % (prop, rp))
         sys.exit(1)
     sys.exit(0)
